@@ -51,3 +51,4 @@ PROP = Prop("C01", tests(), RULE, assumptions=[
     "array rank <= 4, side <= 4, output size <= 40 for the full-Jacobian comparison",
 ], selftest=oracle.selftest, finalize=lambda agg: coverage_accounting(agg))
 PROP.record_primitives = True
+PROP.reach_functions = ['autograd.numpy.numpy_vjps:unbroadcast', 'autograd.numpy.numpy_vjps:repeat_to_match_shape', 'autograd.numpy.numpy_vjps:match_complex', 'autograd.numpy.numpy_vjps:grad_chooser', 'autograd.numpy.numpy_vjps:balanced_eq']
